@@ -319,3 +319,25 @@ Qed.
 Corollary dsl_fuel_monotone : forall L1 L2 g fr st e, (L1 <= L2)%nat ->
   fst (dsl_eval L1 g fr st e) <> DrAbort DaFuel -> dsl_eval L2 g fr st e = dsl_eval L1 g fr st e.
 Proof. intros. apply dsl_eval_mono; assumption. Qed.
+
+(* ------------------------------------------------------------------ loop-free evaluations never exhaust the loop budget *)
+(* With a loop budget of 0 every loop construct - while, for over an array, Array#map/filter/any/all and Array#reduce on a
+   non-empty array - stops with DaFuel at the moment it is ENTERED, before its first iteration: evaluation with L = 0 is a
+   loop detector.  (for over a dictionary/namespace iterates a snapshot of the keys and needs no budget.) *)
+Lemma dsl_loops_need_budget :
+  (forall ev fr st c b, dsl_while ev 0 fr st c b = (DrAbort DaFuel, st)) /\
+  (forall ev fr st k l i b, dsl_for_arr ev 0 fr st k l i b = (DrAbort DaFuel, st)) /\
+  (forall ev mode f l i st acc, dsl_iter ev mode f l 0 i st acc = (DrAbort DaFuel, st, acc, false)) /\
+  (forall ev f l i acc st, dsl_reduce ev 0 f l i acc st = (DrAbort DaFuel, st)).
+Proof. repeat split. Qed.
+
+(* an evaluation that enters no loop construct (detected with budget 0) yields the same result and store under EVERY loop
+   budget; in particular it never ends in DaFuel *)
+Theorem dsl_loopfree_no_fuel : forall g fr st e,
+  fst (dsl_eval 0 g fr st e) <> DrAbort DaFuel ->
+  forall L, dsl_eval L g fr st e = dsl_eval 0 g fr st e /\ fst (dsl_eval L g fr st e) <> DrAbort DaFuel.
+Proof.
+  intros g fr st e H L.
+  assert (E : dsl_eval L g fr st e = dsl_eval 0 g fr st e) by (apply dsl_eval_mono; [apply Nat.le_0_l | exact H]).
+  split; [exact E | rewrite E; exact H].
+Qed.
